@@ -236,7 +236,8 @@ class VPLSBase(NLRI):
             raise Notify(3, 10, 'l2vpn vpls message length is not consistent with encoded bgp')
 
         # only what the accessors read is kept, so what is packed back is what was understood
-        packed = bytes(data[0:2]) + bytes(data[2 : 2 + VPLS_PAYLOAD_SIZE])
+        # (with the length of what is kept: the received length in front of a shorter payload was refused by this very decoder)
+        packed = pack('!H', VPLS_PAYLOAD_SIZE) + bytes(data[2 : 2 + VPLS_PAYLOAD_SIZE])
         nlri = cls(packed)
         return nlri, data[2 + length :]
 
